@@ -66,19 +66,26 @@ Definition acls_match (t : tree) (a : app) (p : list str) (obs : list (bool * bo
                              check_admin_rev t (ap_user a) (ap_groups a) (rev pre))) (prefixes_from [] p))
            obs.
 
+(* the observed hierarchy after a step, in the order "queues that existed before, then the new ones
+   from the top down" (snapshots are sorted by path, parents before children) *)
+Definition reorder (t t' : tree) : tree :=
+  flat_map (fun q => match find_q t' (q_path q) with Some q' => [q'] | None => [] end) t
+  ++ filter (fun q' => match find_q t (q_path q') with Some _ => false | None => true end) t'.
+
 (* one application: model step from the OBSERVED state before it, oracles on the observed result.
    [rules] are the rules of the model under test, [srules] those of the specification (always the
    repaired semantics). *)
 Definition step_check (pinned : bool) (t0 : tree) (rules srules : list rule) (before : list qsnap) (s : pstep) : list N :=
   let w := mkW (tree_of_snap t0 before) rules in
   let '(o, w') := submit pinned w (st_app s) in
-  let corr := obs_eqb o (st_obs s) && snap_matches (w_tree w') (st_after s)
+  let corr := obs_eqb o (st_obs s) && snap_matches (w_tree w') (st_after s) && wf_tree (w_tree w)
               && match st_obs s, convert_ugi (st_app s) with
                  | OAcc p, Some a' => acls_match (tree_of_snap t0 (st_after s)) a' p (st_acls s)
                  | _, _ => true
                  end in
-  let ws := mkW (tree_of_snap t0 before) srules in
-  let wa := mkW (tree_of_snap t0 (st_after s)) srules in
+  let tb := tree_of_snap t0 before in
+  let ws := mkW tb srules in
+  let wa := mkW (reorder tb (tree_of_snap t0 (st_after s))) srules in
   (if corr then [] else [1]) ++
   match convert_ugi (st_app s) with
   | None => match st_obs s with OCrash => [4] | _ => [] end
